@@ -40,3 +40,24 @@ def _(price: REAL) -> REAL:
     ensures("on_ladder", on_classic(result))
     ensures("closest_tick", closest_classic(result, price))
     ensures("fixpoint_on_ticks", implies(on_classic(price), result == price))
+
+
+# ----------------------------------------------------------------------------- price_ticks_away
+const("flumine.utils", "PRICES", ground_numbers("PRICES"))
+const("flumine.utils", "BETDAQ_PRICES", ground_numbers("BETDAQ_PRICES"))
+const("flumine.utils", "FINEST_PRICES", grid(1.01, 0.01, 99899))  # ground-checked every run (extra_c17.py)
+
+
+def strictly_increasing(l):
+    return forall_int(lambda a, b: implies(0 <= a and a < b and b < len(l), l[a] < l[b]))
+
+
+def clamp(i, lo, hi):
+    return lo if i < lo else (hi if i > hi else i)
+
+
+@contract("flumine/utils.py::price_ticks_away", tags=["C17"])
+def _(price: REAL, n_ticks: INT, prices: ListOf(REAL)) -> REAL:
+    requires("ladder", len(prices) > 0 and strictly_increasing(prices) and prices[0] == 1.01 and prices[len(prices) - 1] == 1000)
+    raises(ValueError, when=not exists(lambda a: prices[a] == price, 0, len(prices)), label="off_ladder")
+    ensures("n_ticks_away_clamped", forall(lambda a: implies(prices[a] == price, result == prices[clamp(a + n_ticks, 0, len(prices) - 1)]), 0, len(prices)))
